@@ -1,9 +1,9 @@
 SPECIFICATION Spec
 CONSTANTS
-  Keys = {0, 1, 2}
-  Vals = {1, 2}
+  Keys = {0, 1}
+  Vals = {1}
   Default = 0
-  MaxSize = 3
-  Ext = {}
+  MaxSize = 2
+  Ext = {"write", "cidx", "throw", "two"}
   RangeN = {}
 INVARIANTS TypeOK UniqueKeys Bounded LastAgrees
